@@ -119,6 +119,16 @@ def gen_cases(rng, tier):
                 if any(st[0] == "CopyDecay" and st[1] == new for st in stmts):
                     continue
                 stmts.insert(rng.randint(0, len(stmts)), ["CopyDecay", new, dec[j]])
+        # an alias of a decaying particle that has no Decay block of its own: it has no table (asking for it is an error) and, as a
+        # daughter, it stays a bare name
+        alias_q = None
+        if rng.random() < 0.3:
+            al = "MyAl" + str(len(stmts))
+            stmts.insert(rng.randint(0, len(stmts)), ["Alias", al, rng.choice(dec)])
+            host = [st for st in stmts if st[0] == "Decay" and st[2]]
+            if host:
+                rng.choice(rng.choice(host)[2])["fs"].append(al)
+            alias_q = al
         names = dec + leaves
         if unfold_size(stmts, dec[0]) > 1500 or max(unfold_size(stmts, d) for d in dec) > 4000:
             continue
@@ -133,6 +143,8 @@ def gen_cases(rng, tier):
             m = rng.choice(dec + [rng.choice(leaves)] if rng.random() < 0.1 else dec)
             queries.append([m, S, rng.choice(["tuple", "list", "set"])])
         queries.append([dec[0], [], "tuple"])
+        if alias_q:
+            queries.append([alias_q, [], "tuple"])
         cases.append({"stmts": stmts, "text": decgen.render(stmts), "queries": queries})
     return cases
 
